@@ -270,8 +270,8 @@ var zeroValues = map[string]V{
 }
 
 var zeroByLean = map[LT]string{
-	"Unit": "()", "Int": "(0 : Int)", "Dec": "(0 : Dec)", "Bool": "false", "BRes": "(default : BRes)", "MState": "(default : MState)", "IOC": "(default : IOC)",
-	"List Bid": "[]", "List Dec": "[]",
+	"Unit": "()", "Int": "(0 : Int)", "Dec": "(0 : Dec)", "Bool": "false", "Err": "false", "Time": "(0 : Int)", "Acc": "(default : Acc)", "BRes": "(default : BRes)", "MState": "(default : MState)", "IOC": "(default : IOC)",
+	"List Bid": "[]", "List Dec": "[]", "List VQ": "[]", "List Allowed": "[]", "List AllowedArg": "[]", "List Auction": "[]",
 }
 
 type compositeSpec struct {
@@ -333,6 +333,7 @@ var renderers = map[LT]string{
 	"Addr": "GVal.addr %s", "Status": "GVal.status %s", "BidType": "GVal.bidType %s",
 	"Auction": "GVal.auction %s", "VQ": "GVal.vq %s", "List Time": "GVal.ints %s",
 	"List VS": "GVal.sched %s", "BankIn": "GVal.bankIn %s", "List BankOut": "GVal.bankOuts %s", "Map Acc Int": "GVal.amap %s", "MInfo": "GVal.minfo %s", "Params": "GVal.params %s", "List AllowedArg": "GVal.allowed %s", "AllowedArg": "GVal.allowed1 %s",
+	"Coins": "GVal.coins %s",
 }
 
 // aliasSpec: a Go variable that is a POINTER obtained from / stored into a map entry
